@@ -8,8 +8,8 @@ import CelmaVerif.Model.Interleave
   be the result under every complete schedule).  The model covers "simple" threads only: arguments
   of kind vec_str / list_str / vec_int (decimal tokens) / str / int / flag without checks,
   constraints, formats or cardinalities, used as `-k value` / `--long value` / `-f`.  For every
-  other thread (also: `help` threads and the `group` thread, whose handlers belong to the process-wide
-  `Groups` object) the driver prints `t<k>=?` and the harness' own sequential run is the only oracle.
+  other thread (also: `help` threads, the `group` thread, whose handlers belong to the process-wide
+  `Groups` object, and `file` threads, which read an argument file / environment variable of their own) the driver prints `t<k>=?` and the harness' own sequential run is the only oracle.
 -/
 open CelmaVerif CelmaVerif.Proto CelmaVerif.Interleave
 
@@ -28,6 +28,7 @@ structure ThreadD where
   hasHc : Bool := false
   help : Bool := false
   group : Bool := false     -- group thread (handlers owned by the process-wide Groups object): outside the fragment
+  file : Bool := false      -- thread with an argument file / environment variable of its own: outside the fragment
 deriving Inhabited
 
 structure St where
@@ -191,6 +192,28 @@ def step (s : St) (line : String) : St × String :=
       let d := s.get t
       (s.set t { d with hasHc := true, help := true }, "ok")
     | none => (s, "bad-op")
+  | "file" :: tt :: rest =>
+    -- `file t=<k> mode=<argfile|progarg|env> [hold=0|1]`: the thread reads (part of) its arguments from a file / an
+    -- environment variable of its own (Handler::readArgumentFile / checkReadEnvVarArgs): outside the driver's fragment
+    match (kv [tt] "t").bind String.toNat? with
+    | some t =>
+      let keysOk := toks.length ≥ 3 && toks.length ≤ 4 && rest.all fun w =>
+        ["t", "mode", "hold"].contains ((w.splitOn "=").headD "")
+      let m := (kv toks "mode").getD ""
+      let h := (kv toks "hold").getD "0"
+      if t > 63 || !keysOk || !(["argfile", "progarg", "env"].contains m) || (h != "0" && h != "1") then (s, "bad-op") else
+      let d := s.get t
+      (s.set t { d with hasHc := true, file := true }, "ok")
+    | none => (s, "bad-op")
+  | "fline" :: tt :: nn :: _ :: _ =>
+    -- `fline t=<k> n=<1..2000> <word>...`: one line of the thread's file, written n times
+    match (kv [tt] "t").bind String.toNat?, kv [nn] "n" with
+    | some t, some c =>
+      if t > 63 || c.isEmpty || c.length > 4 || !c.toList.all Char.isDigit then (s, "bad-op") else
+      match c.toNat? with
+      | some x => if x < 1 || x > 2000 then (s, "bad-op") else (s, "ok")
+      | none => (s, "bad-op")
+    | _, _ => (s, "bad-op")
   | ["bracket", _, _] =>
     -- `bracket t=<k> at=<n>`: where the thread calls addBracketHandler; no effect on a command line without brackets
     match (kv toks "t").bind String.toNat?, kv toks "at" with
@@ -232,6 +255,7 @@ def step (s : St) (line : String) : St × String :=
     | some n =>
       if n < 1 || n > 64 || s.threads.any (·.1 ≥ n) then (s, "bad-op")
       else if s.threads.any (fun p => p.2.group && p.2.help) || (s.threads.filter (·.2.group)).length > 1 then (s, "bad-op")
+      else if s.threads.any (·.2.file) && s.threads.any (fun p => p.2.group || p.2.help) then (s, "bad-op")
       else
       let parts := (List.range n).map fun t => s!"t{t}={expectThread t (s.get t)}"
       (s, s!"ok threads={n} " ++ " ".intercalate parts)
